@@ -167,15 +167,14 @@ theorem adjust_identity (u : Bytes) (a : Addr) (h : ¬ (a.v6 = true ∧ a.scope 
 /-! ### the run-time judge is the theorem's reading -/
 
 /-- **The judge evaluated on the model's own observation accepts**: for a well-formed header list,
-    probes that cover every sent name (in any spelling) and the metadata names, and an adjusted
-    location inside the modelled grammar, `roundTripOk` — the predicate the driver evaluates on the
-    IMPLEMENTATION's observation — holds of the observation of the map `decode_build` speaks about.
+    probes that cover every sent name (in any spelling) and the metadata names, `roundTripOk` — the predicate the driver evaluates on the
+    IMPLEMENTATION's observation — holds of the observation of the map `decode_build` speaks about
+    (a location outside the modelled URL grammar is `unk` in the model and any text for the judge).
     So the run-time judge demands nothing the theorem does not establish for the model. -/
 theorem judge_accepts_roundtrip (sl : Bytes) (hs : List (Bytes × Bytes)) (src : Addr) (h : Hdrs) (probes : List Bytes)
     (hrt : RoundTrip hs src h)
     (hcov : ∀ p ∈ hs, ∃ q ∈ probes, lower q = lower p.1)
-    (hmeta : ∀ k ∈ [kHost, kPort, kRemote, kUdn, kLocOrig], ∃ q ∈ probes, lower q = lower k)
-    (hadj : ∀ p ∈ hs, lower p.1 = kLocation → allPyWs p.2 = false → ∃ u, adjVal p.2 src = .str u) :
+    (hmeta : ∀ k ∈ [kHost, kPort, kRemote, kUdn, kLocOrig], ∃ q ∈ probes, lower q = lower k) :
     roundTripOk Gen.C01Ssdp.metaKeys sl hs src sl (observe probes h) = true := by
   have hl : ∀ k, lower (lower k) = lower k := by
     intro k; unfold lower; simp only [List.map_map]; apply List.map_congr_left; intro b _
@@ -207,16 +206,14 @@ theorem judge_accepts_roundtrip (sl : Bytes) (hs : List (Bytes × Bytes)) (src :
     by_cases hloc : lower p.1 = kLocation
     · simp only [hloc, beq_self_eq_true, if_true]
       by_cases hw : allPyWs p.2 = true
-      · rw [lk, hrt.locBlank p hp hloc hw p.1 hloc]; simp
+      · simp only [hw, if_true]
+        rw [lk, hrt.locBlank p hp hloc hw p.1 hloc]; simp
       · have hw' : allPyWs p.2 = false := by simpa using hw
         obtain ⟨ha, ho⟩ := hrt.locAdjusted p hp hloc hw'
-        obtain ⟨u, hu⟩ := hadj p hp hloc hw'
-        rw [lk, ha p.1 hloc, hu, lOrig, ho kLocOrig klow.2.2.2.2]
-        by_cases hsc : src.v6 = true ∧ src.scope ≠ 0
-        · simp [hsc.1, hsc.2]
-        · have := adjust_identity p.2 src hsc
-          unfold adjVal at hu; rw [this] at hu
-          simp only [Val.str.injEq] at hu; subst hu; simp
+        simp only [hw', Bool.false_eq_true, if_false]
+        rw [lk, ha p.1 hloc, lOrig, ho kLocOrig klow.2.2.2.2]
+        unfold adjVal
+        cases adjustUrl p.2 src <;> simp
     · have hne : (lower p.1 == kLocation) = false := by simpa using hloc
       simp only [hne]
       rw [lk, hrt.sent p hp hloc p.1 rfl]; simp
@@ -246,12 +243,11 @@ theorem judge_accepts_decode_build (sep : Bytes) (hsep : SepOk sep) (sl : Bytes)
     (hs : List (Bytes × Bytes)) (hwf : wfHeaders Gen.C01Ssdp.metaKeys hs = true)
     (loc : Option Addr) (src : Addr) (now : Int) (probes : List Bytes)
     (hcov : ∀ p ∈ hs, ∃ q ∈ probes, lower q = lower p.1)
-    (hmeta : ∀ k ∈ [kHost, kPort, kRemote, kUdn, kLocOrig], ∃ q ∈ probes, lower q = lower k)
-    (hadj : ∀ p ∈ hs, lower p.1 = kLocation → allPyWs p.2 = false → ∃ u, adjVal p.2 src = .str u) :
+    (hmeta : ∀ k ∈ [kHost, kPort, kRemote, kUdn, kLocOrig], ∃ q ∈ probes, lower q = lower k) :
     ∃ h, decode (build sep sl hs) loc src now = .ok (sl, h)
       ∧ roundTripOk Gen.C01Ssdp.metaKeys sl hs src sl (observe probes h) = true := by
   obtain ⟨h, hd, hrt⟩ := decode_build sep hsep sl hsl hs hwf loc src now
-  exact ⟨h, hd, judge_accepts_roundtrip sl hs src h probes hrt hcov hmeta hadj⟩
+  exact ⟨h, hd, judge_accepts_roundtrip sl hs src h probes hrt hcov hmeta⟩
 
 /-! ### decoding is independent of history -/
 
